@@ -72,4 +72,34 @@ def advance {T : Type} (tw : TW T) (now : Int) : TW T :=
   let tw' := tickSteps ticks.toNat tw
   { tw' with lastTick := some (last + tw.tickDuration * adv) }
 
+/-- Histories: the three operations a caller can perform, and the list of values `Purge` has returned. -/
+inductive Op where
+  | add (v : Nat) (timeout : Int)
+  | advance (now : Int)
+  | purge
+  deriving DecidableEq, Repr
+
+def runOp (st : TW Nat × List Nat) : Op → TW Nat × List Nat
+  | .add v t => match add st.1 v t with
+    | some tw => (tw, st.2)
+    | none => st
+  | .advance now => (advance st.1 now, st.2)
+  | .purge => match purge st.1 with
+    | (some v, tw) => (tw, st.2 ++ [v])
+    | (none, tw) => (tw, st.2)
+
+def run (st : TW Nat × List Nat) (ops : List Op) : TW Nat × List Nat := ops.foldl runOp st
+
+/-- time of the latest `Advance` (`start` if there is none). -/
+def lastAdvance : Int → List Op → Int
+  | last, [] => last
+  | _, .advance now :: rest => lastAdvance now rest
+  | last, _ :: rest => lastAdvance last rest
+
+/-- the clock never runs backwards between `Advance` calls. -/
+def Mono : Int → List Op → Prop
+  | _, [] => True
+  | last, .advance now :: rest => last ≤ now ∧ Mono now rest
+  | last, _ :: rest => Mono last rest
+
 end Nebula.Wheel
